@@ -101,7 +101,7 @@ func (vc *FnVC) instr(in ssa.Instruction) {
 		vc.safety("makeslice", and(app("<=", "0", ln), app("<=", ln, cp)), x.Pos(), "make: 0 <= len <= cap")
 		r := vc.newRef()
 		comp := vc.e.arrComp(et)
-		zarr := fmt.Sprintf("((as const (Array Int %s)) %s)", vc.e.sortOf(et), vc.e.zero(et))
+		zarr := vc.e.constArray("Int", et)
 		vc.cur = vc.cur.update(comp, app("store", vc.cur.get(comp), r, zarr))
 		vc.setVal(x, app("mkslice", r, "0", ln, cp))
 	case *ssa.MakeMap:
@@ -141,6 +141,8 @@ func (vc *FnVC) instr(in ssa.Instruction) {
 	case *ssa.MapUpdate:
 		mt := x.Map.Type().Underlying().(*types.Map)
 		m, k, v := vc.val(x.Map), vc.val(x.Key), vc.val(x.Value)
+		vc.mapSite("mapupdate", x.Map, []TV{{t: m, ty: x.Map.Type()}, {t: k, ty: x.Key.Type()}, {t: v, ty: x.Value.Type()}}, x.Pos())
+		defer vc.mapSiteDone()
 		vc.safety("mapwrite", app("not", app("=", m, "0")), x.Pos(), "assignment to entry in nil map")
 		d, vl, l := vc.e.mapComps(mt)
 		had := app("select", app("select", vc.cur.get(d), m), k)
@@ -197,7 +199,7 @@ func (vc *FnVC) alloc(x *ssa.Alloc) {
 	vc.vals[x] = r
 	if at, ok := t.Underlying().(*types.Array); ok && vc.private[x] == "" {
 		comp := vc.e.arrComp(at.Elem())
-		zarr := fmt.Sprintf("((as const (Array Int %s)) %s)", vc.e.sortOf(at.Elem()), vc.e.zero(at.Elem()))
+		zarr := vc.e.constArray("Int", at.Elem())
 		vc.cur = vc.cur.update(comp, app("store", vc.cur.get(comp), r, zarr))
 		return
 	}
@@ -220,6 +222,15 @@ func (vc *FnVC) unop(x *ssa.UnOp) {
 			// package-level variable: read from its cell
 			_ = g
 		}
+		if a, ok := x.X.(*ssa.Alloc); ok {
+			if sv := vc.immutableCell(a); sv != nil {
+				if t, defined := vc.vals[sv]; defined || isConstOrParam(sv) {
+					_ = t
+					vc.vals[x] = vc.val(sv) // a variable that is assigned once (e.g. a parameter captured by a closure)
+					return
+				}
+			}
+		}
 		vc.nilCheckAddr(x.X, x.Pos())
 		lv := vc.lvOf(x.X)
 		if _, isArr := lv.typ.Underlying().(*types.Array); isArr && len(lv.steps) == 0 && strings.HasPrefix(lv.comp, "A$") {
@@ -228,6 +239,7 @@ func (vc *FnVC) unop(x *ssa.UnOp) {
 		}
 		vc.setVal(x, vc.loadLV(lv, vc.cur))
 		vc.assumeLoaded(vc.vals[x], x.Type())
+		vc.e.assumption["the heap is closed under reachability: every reference read from memory, passed in or returned by a callee denotes an allocated object"] = true
 	case token.NOT:
 		vc.setVal(x, not(vc.val(x.X)))
 	case token.SUB:
@@ -697,9 +709,14 @@ func (vc *FnVC) assumeLoaded(t Term, ty types.Type) {
 	switch u := ty.Underlying().(type) {
 	case *types.Slice:
 		vc.assume("true", and(app(">=", app("slen", t), "0"), app(">=", app("scap", t), app("slen", t)), app(">=", app("soff", t), "0"), app(">=", app("sref", t), "0"),
+			app("<", app("sref", t), vc.cur.get(nextComp)),
 			implies(app("=", app("sref", t), "0"), and(app("=", app("slen", t), "0"), app("=", app("scap", t), "0")))))
 	case *types.Pointer, *types.Map, *types.Chan:
-		vc.assume("true", app(">=", t, "0"))
+		vc.assume("true", and(app(">=", t, "0"), app("<", t, vc.cur.get(nextComp))))
+	case *types.Interface:
+		n := vc.cur.get(nextComp)
+		vc.assume("true", and(implies(app("(_ is aref)", t), and(app(">=", app("arf", t), "0"), app("<", app("arf", t), n))),
+			implies(app("(_ is aslice)", t), app("<", app("sref", app("aslv", t)), n))))
 	case *types.Basic:
 		if u.Info()&types.IsUnsigned != 0 {
 			vc.assume("true", app(">=", t, "0"))
@@ -738,4 +755,72 @@ func (vc *FnVC) runDefersAtRecover() {
 			vc.cur = joinMems(vc.e, vc.emit, []*Mem{vc.cur, before}, []Term{g, not(g)})
 		}
 	}
+}
+
+// immutableCell: if the cell is written exactly once by this function and never by the closures that capture it,
+// every load yields the stored value.
+func (vc *FnVC) immutableCell(a *ssa.Alloc) ssa.Value {
+	if v, ok := vc.immut[a]; ok {
+		return v
+	}
+	var stored ssa.Value
+	n := 0
+	okAll := true
+	if refs := a.Referrers(); refs != nil {
+		for _, r := range *refs {
+			switch u := r.(type) {
+			case *ssa.Store:
+				if u.Addr == ssa.Value(a) {
+					n++
+					stored = u.Val
+				} else {
+					okAll = false // the address itself is stored somewhere
+				}
+			case *ssa.UnOp, *ssa.DebugRef:
+			case *ssa.MakeClosure:
+				fn := u.Fn.(*ssa.Function)
+				for i, b := range u.Bindings {
+					if b == ssa.Value(a) && freeVarWritten(fn, i, 0) {
+						okAll = false
+					}
+				}
+			default:
+				okAll = false
+			}
+		}
+	}
+	if !okAll || n != 1 {
+		stored = nil
+	}
+	if vc.immut == nil {
+		vc.immut = map[*ssa.Alloc]ssa.Value{}
+	}
+	vc.immut[a] = stored
+	return stored
+}
+
+func freeVarWritten(fn *ssa.Function, idx int, depth int) bool {
+	if depth > 4 || idx >= len(fn.FreeVars) {
+		return true
+	}
+	fv := fn.FreeVars[idx]
+	if refs := fv.Referrers(); refs != nil {
+		for _, r := range *refs {
+			switch u := r.(type) {
+			case *ssa.Store:
+				return true
+			case *ssa.UnOp, *ssa.DebugRef:
+			case *ssa.MakeClosure:
+				inner := u.Fn.(*ssa.Function)
+				for i, b := range u.Bindings {
+					if b == ssa.Value(fv) && freeVarWritten(inner, i, depth+1) {
+						return true
+					}
+				}
+			default:
+				return true
+			}
+		}
+	}
+	return false
 }
